@@ -605,4 +605,86 @@ theorem exists_ne_of_not_nodup_map {α β : Type} (f : α → β) (l : List α) 
       exact ⟨a, List.mem_cons_of_mem _ ha, b, List.mem_cons_of_mem _ hb, hab⟩
 
 
+/-! ### reloading -/
+
+theorem envCastOrder_eq : Generated.envCastOrder = ["bool", "str", "none", "seq", "other"] := by decide
+
+/-- a successful cast keeps the kind of the value, so casting by the NEW value is casting by the old one -/
+theorem castLeaf_kind_stable (old y : Leaf) (s : List Char) (h : castLeaf old s = .ok y) (s' : List Char) :
+    castLeaf y s' = castLeaf old s' := by
+  simp only [castLeaf, envCastOrder_eq] at h ⊢
+  cases old with
+  | none =>
+    simp [castWith, branchApplies, runBranch] at h; subst h
+    simp [castWith, branchApplies, runBranch]
+  | b v =>
+    simp [castWith, branchApplies, runBranch] at h; subst h
+    simp [castWith, branchApplies, runBranch]
+  | i v =>
+    simp only [castWith, branchApplies, runBranch, classCall, List.find?, String.reduceBEq, if_true, if_false,
+      Bool.false_eq_true] at h ⊢
+    cases hp : pyInt s with
+    | none => simp [hp] at h
+    | some k => simp only [hp, Except.ok.injEq] at h; subst h; simp
+  | s v =>
+    simp [castWith, branchApplies, runBranch] at h; subst h
+    simp [castWith, branchApplies, runBranch]
+  | l v => simp [castWith, branchApplies, runBranch] at h
+  | obj t =>
+    simp [castWith, branchApplies, runBranch, classCall] at h; subst h
+    simp [castWith, branchApplies, runBranch, classCall]
+
+theorem applyVars_cons (pre : List Char) (environ : Environ) (c : KVs) (var : List Char) (p : List Key)
+    (rest : Vars) (data : KVs) :
+    applyVars pre environ c ((var, p) :: rest) data =
+      match lookupEnv (pre ++ var) environ with
+      | none => applyVars pre environ c rest data
+      | some s => match castAt c p s with
+        | .error e => .error e
+        | .ok new => applyVars pre environ c rest (setLeaf p new data) := by
+  simp only [applyVars, castAt]
+  cases lookupEnv (pre ++ var) environ with
+  | none => rfl
+  | some s => cases getLeaf p c <;> rfl
+
+/-- the loop depends on the configuration only through the casts at the crawled paths -/
+theorem applyVars_congr_config (pre : List Char) (environ : Environ) (c c' : KVs) (vars : Vars) (data : KVs)
+    (h : ∀ e ∈ vars, ∀ s, castAt c e.2 s = castAt c' e.2 s) :
+    applyVars pre environ c vars data = applyVars pre environ c' vars data := by
+  induction vars generalizing data with
+  | nil => rfl
+  | cons hd tl ih =>
+    obtain ⟨v, q⟩ := hd
+    have ht : ∀ e ∈ tl, ∀ s, castAt c e.2 s = castAt c' e.2 s := fun e he => h e (List.mem_cons_of_mem _ he)
+    rw [applyVars_cons, applyVars_cons]
+    cases lookupEnv (pre ++ v) environ with
+    | none => exact ih _ ht
+    | some s =>
+      have := h (v, q) (List.mem_cons_self ..) s
+      simp only at this
+      simp only [this]
+      cases castAt c' q s with
+      | error e => rfl
+      | ok new => exact ih _ ht
+
+/-- RELOAD.  `load` sees the configuration only through its leaf paths and through how each leaf casts: two
+    configurations with the same leaf paths whose leaves cast alike give the same env level (or the same refusal)
+    under every environment -/
+theorem loadEnv_congr_config (pre : List Char) (environ : Environ) (c c' : KVs)
+    (hpaths : leafPaths [] c = leafPaths [] c')
+    (hcast : ∀ p ∈ leafPaths [] c, ∀ s, castAt c p s = castAt c' p s) :
+    loadEnv pre environ c = loadEnv pre environ c' := by
+  rw [loadEnv_eq, loadEnv_eq]
+  have hn : leafVarNames [] c = leafVarNames [] c' := by simp [leafVarNames, hpaths]
+  rw [← hn, ← hpaths]
+  by_cases h : (leafVarNames [] c).Nodup
+  · simp only [h, if_true]
+    apply applyVars_congr_config
+    intro e he s
+    obtain ⟨v, p⟩ := e
+    rw [mem_varsOf] at he
+    exact hcast p he.1 s
+  · simp [h]
+
+
 end Inv
